@@ -63,7 +63,7 @@ func checkConv(id, typ, tier, replay string) int {
 	rep.Rule = fmt.Sprintf("%d seeded pairs for %s: %s. The script printed by the real drc is executed request by request / command by command on the device model; "+
 		"the resulting state must be equivalent to the target (canonical form: references replaced by content, generated names ignored), a second compare of the dumped model must be empty, "+
 		"and 'device unchanged' is only accepted for an already equivalent device. Non-trivial = the tool reported a change; distinct = distinct input text. "+
-		"A command the model refuses under the five rules of C08 ends the run like a real approve would and counts as not converged. NSX and PAN-OS: every 8th pair is run as a complete live approve (real list requests, paging and prefix filter of the tool) against the HTTPS simulator backed by the model.", n, typ, convRules[typ])
+		"A command the model refuses under the five rules of C08 ends the run like a real approve would and counts as not converged. NSX and PAN-OS: every 8th pair is run as a complete live approve (real list requests, paging and prefix filter of the tool) against the HTTPS simulator backed by the model. ASA and IOS: every 8th pair is also run as a complete live approve (drc / do-approve; login variants, session set-up, configuration mode, IOS reload guard, save, notice lines of the device) against the CLI simulator backed by the model, the received commands are judged like a printed script, and a live compare of the state the session left must be clean.", n, typ, convRules[typ])
 	rep.Assumptions = []string{
 		"device semantics are those of the reference model written from the API/CLI documentation; every alarm is reproduced against the real code before it is classified",
 	}
@@ -94,6 +94,17 @@ func checkConv(id, typ, tier, replay string) int {
 				o = runConvLivePANOS(env, g)
 			}
 			live = "live:"
+			rep.Count("live_sessions", 1)
+		}
+		if (typ == "asa" || typ == "ios") && i%8 == 5 && o.Conv == nil && o.Exec == nil && o.Inconclusive == "" {
+			// Same pair as a complete live approve + live compare through
+			// the CLI simulator backed by the model; verdicts of the
+			// replayed session keep the class keys of file mode.
+			o = runConvLiveCisco(env, g)
+			rep.Count("live_commands_received", o.LiveCommands)
+			rep.Count("live_joined_packets", o.LiveJoined)
+			rep.Count("live_device_notices_shown", o.LiveNotices)
+			rep.Count("live_second_compares", o.LiveCompares)
 			rep.Count("live_sessions", 1)
 		}
 		rep.Case(run.Hash(live, g.Device, fmt.Sprint(g.Files)), o.Nontrivial)
